@@ -33,6 +33,7 @@ type tableRow struct {
 	atoms     map[string]tval
 	result    tval
 	reached   bool
+	stuck     bool // the interpretation spun in an inner loop (its "continue" assignment); the exit assignment covers progress
 	errExit   bool // the region was left through a failing return before the target
 	stored    bool // a tracked field was written on the way
 	storedVal tval
@@ -277,7 +278,7 @@ func truthTableTracking(L *Loaded, start *ssa.BasicBlock, target ssa.Instruction
 				for k, v := range env {
 					cp[k] = v
 				}
-				rows = append(rows, tableRow{atoms: cp, result: res, reached: reached, errExit: it.errExit, stored: it.stored, storedVal: it.storedVal})
+				rows = append(rows, tableRow{atoms: cp, result: res, reached: reached, errExit: it.errExit, stuck: it.failed != "", stored: it.stored, storedVal: it.storedVal})
 				return
 			}
 			id := ids[i]
